@@ -35,9 +35,11 @@ class Gen:
 
 def gs_text(n, gens): return "%d %d %s" % (n, len(gens), " ".join(g.body() for g in gens))
 def gs_shape(n, gens):
-    """kinds as seen through Generator_System::const_iterator: a closure point matched by an equal point of the system is skipped"""
-    pts = set((tuple(g.coefs), g.div) for g in gens if g.kind == "p")
-    vis = [g for g in gens if not (g.kind == "c" and (tuple(g.coefs), g.div) in pts)]
+    """kinds as seen through Generator_System::const_iterator (skip_forward): a closure point IMMEDIATELY FOLLOWED by the matching point is skipped"""
+    vis = []
+    for i, g in enumerate(gens):
+        if g.kind == "c" and i + 1 < len(gens) and gens[i + 1].kind == "p" and gens[i + 1].coefs == g.coefs and gens[i + 1].div == g.div: continue
+        vis.append(g)
     return "%d %d %s" % (n, len(vis), " ".join(g.kind for g in vis))
 
 
